@@ -26,16 +26,12 @@ ROUND4 = [
          "                    loaded[memo_key] = list(iter_json_file(parser(real_path), lookup))\n"
          "                models_dict[model_name].extend(loaded[memo_key])\n"),
     ]),
-    ("class_dedup_flattened", "class names are de-duplicated over a flattened walk of the generators", [
-        (J + "models/base.py",
-         "    used = set() if used is None else used\n    for gen, nested_generators in generators:\n        name = gen.model.name\n"
-         "        while name in used:\n            name += \"_\"\n        used.add(name)\n        if name != gen.model.name:\n"
-         "            gen.model.set_raw_name(name, generated=gen.model.is_name_generated)\n"
-         "        _fix_class_name_duplicates(nested_generators, used)\n",
-         "    def walk(gens):\n        for gen, nested_generators in gens:\n            yield gen\n            yield from walk(nested_generators)\n\n"
-         "    used = set() if used is None else used\n    for gen in walk(generators):\n        name = gen.model.name\n"
-         "        while name in used:\n            name += \"_\"\n        used.add(name)\n        if name != gen.model.name:\n"
-         "            gen.model.set_raw_name(name, generated=gen.model.is_name_generated)\n"),
+    ("child_names_reserved_by_setdefault", "child class names are put into the label table directly", [
+        (J + "models/base.py", "            gen.reserve_field_name(ptr.type.name)\n", "            gen._field_labels.setdefault(ptr.type.name, None)\n"),
+    ]),
+    ("labels_in_sorted_list", "the keys are sorted into a list before their labels are requested", [
+        (J + "models/base.py", "        for key in sorted(gen.model.type):\n            gen.convert_field_name(key)\n",
+         "        for key in sorted(gen.model.type.keys()):\n            gen.convert_field_name(key)\n"),
     ]),
     ("filter_type_via_get", "the pydantic filter reads the field type with dict.get", [
         (J + "models/pydantic.py", "            field_type = self.model.type[field]\n", "            field_type = self.model.type.get(field)\n"),
